@@ -183,6 +183,11 @@ def run(ctx):
     integrator(ctx, results)
     equations(ctx, results)
     zero(ctx, results)
+    # the fuzzy gain scheduler feeding the PID step: buffer discipline, weighted mean, guarded normaliser (shared with C13)
+    from props import C13_fuzzy
+    C13_fuzzy.run(ctx)
+    for r_ in ('F5a', 'F5b', 'F5c', 'F5d'):
+        rep.floor(r_, 1)
     rep.floor('D1', 13)
     rep.floor('D2', 1)
     rep.floor('D3', 6)
